@@ -48,3 +48,20 @@ Definition unit_parse_pinned (t : str) : option (dec * str) :=
   end.
 
 Definition unit_eqb (a b : dec * str) : bool := dec_eqb (fst a) (fst b) && str_eqb (snd a) (snd b).
+
+(* Unit(float): the float goes through str(float), then Decimal(text) *)
+Definition unit_of_float (r : str) : option dec := dec_of_text r.
+
+(* Unit.convert("px", dpi): inches -> int(value * int(dpi)); centimetres -> int(value / Decimal("2.54") * int(dpi)); anything else is not
+   implemented.  int() truncates toward zero.  The quotient is taken exactly here; Decimal works with 28 significant digits, which is
+   the same for every value whose exact quotient is not within 10^-26 of an integer (stated in the notes; compared on every case). *)
+Definition s_in : str := [105; 110]%N.
+Definition s_px : str := [112; 120]%N.
+Definition dec_signed_coef (d : dec) : Z := ((if dneg d then -1 else 1) * Z.of_N (dcoef d))%Z.
+Definition unit_convert_px (d : dec) (u : str) (dpi : Z) : option Z :=
+  let num := (dec_signed_coef d * dpi)%Z in
+  if str_eqb u s_in then
+    Some (if (0 <=? dexp d)%Z then num * 10 ^ dexp d else Z.quot num (10 ^ (- dexp d)))%Z
+  else if str_eqb u s_cm then
+    Some (if (0 <=? dexp d)%Z then Z.quot (num * 100 * 10 ^ dexp d) 254 else Z.quot (num * 100) (254 * 10 ^ (- dexp d)))%Z
+  else None.
